@@ -1277,6 +1277,10 @@ class Interp:
                     return [('no', st)]
                 if kt == 'maybe':
                     st = st.assume(('is', v, var), True)
+                elif kt == 'yes' and not any(a == ('is', v, var) and t for a, t in st.pc) and var not in COMPLEMENT:
+                    # known by exclusion of every sibling variant: say so in the path condition, so that a rule which asks "is this
+                    # the X path?" gets the same answer whether the code tested for X or ruled out everything else first
+                    st = st.assume(('is', v, var), True)
             if k == 'PTupleStruct':
                 if 'Struct' in (p.get('defkind') or '') and not is_var:
                     # destructuring a tuple struct is the same as reading its numbered fields
@@ -1309,6 +1313,8 @@ class Interp:
                 kt = st.variant_test(v, var, self.siblings(pe))
                 if kt == 'maybe':
                     return [('maybe', st.assume(('is', v, var), True))]
+                if kt == 'yes' and not any(a == ('is', v, var) and t for a, t in st.pc) and var not in COMPLEMENT:
+                    st = st.assume(('is', v, var), True)      # known by exclusion: made explicit (see above)
                 return [(kt, st)]
             if pe.get('defkind', '').startswith('Const') or pe.get('defkind', '').startswith('AssocConst'):
                 cv = hirq.const_eval(self.facts, {'k': 'Path', 'res': 'def', 'defkind': pe.get('defkind'), 'def': pe.get('def')})
